@@ -1,5 +1,7 @@
 import ExprModel.Proofs.VMStep
 import ExprModel.Proofs.SpecInv
+import ExprModel.Proofs.SpecBudget
+import ExprModel.Props.C01
 import ExprModel.VM.SrcDefects
 /-
 C06 — The memory budget bounds what a run can allocate.
@@ -23,11 +25,17 @@ comparison, operands, order of test / add / push, the clamp, `MemoryBudget`, `ma
 -/
 namespace ExprModel.C06
 open ExprModel
+open ExprModel.Refine
+set_option autoImplicit false
 
 /-! ### the source facts -/
 
-/-- `OpRange`: `size := max - min + 1`, refused *before* building (`vm.memory+size >= vm.limit`), then
-    `vm.push(makeRange(min, max)); vm.memory += size` — as in the model's `.range` clause -/
+/-- `OpRange`: `size` is `max - min + 1` (clamped at zero: either `if size < 0 { size = 0 }` after it, or
+    `size := 0; if max >= min { size = max - min + 1 … }` — both shapes set `clamped`), refused *before* building
+    (`vm.memory+size >= vm.limit`), then `vm.push(makeRange(min, max)); vm.memory += size` — as in the model's
+    `.range` clause.  The model computes `size` in unbounded integers; `Gen.Budget.rangeOverflowGuard` records
+    whether the code refuses a size that does not fit an `int` (then it agrees with the model there too: such a
+    range exceeds every budget). -/
 theorem range_site_as_modelled :
     Gen.Budget.rangeSite.sizeExpr = "max - min + 1" ∧
     Gen.Budget.rangeSite.testLhs = "vm.memory+size" ∧ Gen.Budget.rangeSite.testOp = ">=" ∧
@@ -321,22 +329,94 @@ theorem spec_eval_invariant (sc : Spec.SCfg) (hr : sc.rangeSizeSigned = false) (
   ⟨Spec.eval_memory_eq_created sc hr ctx n s hs, Spec.eval_created_mono sc hr ctx n s,
    fun hlt hne => Spec.eval_lt_budget_of_not_budget_error sc hr ctx n s hs hlt hne⟩
 
-/-- NOT PROVED (searched by the harness oracle on the real code instead): the two-budget formulation of
-    "needs" — the number of elements an expression *needs* is what an evaluation under a budget large enough
-    to succeed creates; under any other budget the evaluation succeeds with the same value exactly when it
-    needs fewer elements than that budget, and ends with the budget error otherwise. -/
-def spec_needs_goal : Prop :=
-  ∀ (sc : Spec.SCfg) (cast : Option Nat) (n : Node) (big : Int) (v : Val), sc.rangeSizeSigned = false → 0 < sc.budget →
-    (Spec.run { sc with budget := big } cast n).1 = .ok v →
+/-- **The two-budget reading of "needs"** (budget monotonicity of `Spec.eval`, Proofs/SpecBudget.lean): the number
+    of elements an expression *needs* is what an evaluation under a budget large enough not to be refused
+    creates; under any other (positive) budget the evaluation returns the same value exactly when it needs
+    fewer elements than that budget, and ends with the budget error otherwise — whatever the order of the
+    allocations and whether they are refused before building (ranges) or fail after adding (literals, builtin
+    results). -/
+theorem spec_needs (sc : Spec.SCfg) (cast : Option Nat) (n : Node) (big : Int) (v : Val)
+    (hr : sc.rangeSizeSigned = false) (hb : 0 < sc.budget)
+    (hbig : (Spec.run { sc with budget := big } cast n).1 = .ok v) :
     (((Spec.run { sc with budget := big } cast n).2.created : Int) < sc.budget → (Spec.run sc cast n).1 = .ok v) ∧
-    (sc.budget ≤ ((Spec.run { sc with budget := big } cast n).2.created : Int) → (Spec.run sc cast n).1 = .error .budget)
+    (sc.budget ≤ ((Spec.run { sc with budget := big } cast n).2.created : Int) → (Spec.run sc cast n).1 = .error .budget) := by
+  have hsc : Spec.withBudget { sc with budget := big } sc.budget = sc := by cases sc; rfl
+  have h := Spec.spec_needs { sc with budget := big } hr cast n sc.budget hb (by rw [hbig]; intro h; cases h)
+  rw [hsc] at h
+  exact ⟨fun hlt => by rw [h.1 hlt]; exact hbig, h.2⟩
 
-/-- the strongest proved part of `spec_needs_goal`: both directions for one and the same evaluation -/
-theorem spec_needs_partial (sc : Spec.SCfg) (cast : Option Nat) (n : Node) (hr : sc.rangeSizeSigned = false)
+/-- the same when the reference evaluation fails for another reason (index, type, environment function …) after
+    creating `k` elements: below `k + 1` the budget error comes first, above it the very same outcome (result
+    and final state) -/
+theorem spec_needs_any_outcome (sc : Spec.SCfg) (cast : Option Nat) (n : Node) (big : Int)
+    (hr : sc.rangeSizeSigned = false) (hb : 0 < sc.budget)
+    (hbig : (Spec.run { sc with budget := big } cast n).1 ≠ .error .budget) :
+    (((Spec.run { sc with budget := big } cast n).2.created : Int) < sc.budget →
+        Spec.run sc cast n = Spec.run { sc with budget := big } cast n) ∧
+    (sc.budget ≤ ((Spec.run { sc with budget := big } cast n).2.created : Int) → (Spec.run sc cast n).1 = .error .budget) := by
+  have hsc : Spec.withBudget { sc with budget := big } sc.budget = sc := by cases sc; rfl
+  have h := Spec.spec_needs { sc with budget := big } hr cast n sc.budget hb hbig
+  rw [hsc] at h
+  exact h
+
+/-- both directions for one and the same evaluation -/
+theorem spec_needs_same_run (sc : Spec.SCfg) (cast : Option Nat) (n : Node) (hr : sc.rangeSizeSigned = false)
     (hb : 0 < sc.budget) :
     (∀ v, (Spec.run sc cast n).1 = .ok v → ((Spec.run sc cast n).2.created : Int) < sc.budget) ∧
     (sc.budget ≤ ((Spec.run sc cast n).2.created : Int) → (Spec.run sc cast n).1 = .error .budget) :=
   ⟨fun v hv => spec_success_lt_budget sc cast n v hr hb hv, spec_needs_ge_fails sc cast n hr hb⟩
+
+/-! ### compiled programs: the property's sentence through the refinement theorem of C01
+
+`C01.run_conforms_checked`: for enough fuel the byte-level run of the compiled program returns the reference
+evaluator's result and counters (exclusions of C01: operands fit 16 bits, no aliased float constants, looped
+collections shorter than 2^63).  Together with `spec_needs`: -/
+
+/-- **C06 for compiled programs.**  Take the run of the compiled program under any reference budget `big` that does
+    not end in the budget error; the elements it created are what the evaluation *needs*.  Under the budget
+    `c.budget` the same program, environment and world: needs fewer ⇒ the very same result, never refused;
+    needs at least that many ⇒ fails with the budget error instead of completing. -/
+theorem compiled_needs (cfg : CompCfg) (n : Node) (cp : Compiled) (c : Cfg) (big : Int)
+    (hc : compileProgram cfg n = .ok cp) (hfl : floatsOK n = true) (hfit : FitsU16 cp.code) (henv : EnvOK c cfg)
+    (hg : Good (SmallColl c) n) (hgbig : Good (SmallColl { c with budget := big }) n)
+    (hr : c.defects.rangeSizeSigned = false) (hb : 0 < c.budget) :
+    ∃ N, ∀ fuel, N ≤ fuel →
+      (run { c with budget := big } (progOf cp) fuel).1 ≠ .error .budget →
+      (((run { c with budget := big } (progOf cp) fuel).2.created : Int) < c.budget →
+          (run c (progOf cp) fuel).1 = (run { c with budget := big } (progOf cp) fuel).1 ∧
+          (run c (progOf cp) fuel).2.created = (run { c with budget := big } (progOf cp) fuel).2.created) ∧
+      (c.budget ≤ ((run { c with budget := big } (progOf cp) fuel).2.created : Int) →
+          (run c (progOf cp) fuel).1 = .error .budget) := by
+  obtain ⟨N1, h1⟩ := C01.run_conforms_checked cfg n cp c hc hfl hfit henv hg
+  obtain ⟨N2, h2⟩ := C01.run_conforms_checked cfg n cp { c with budget := big } hc hfl hfit henv hgbig
+  refine ⟨max N1 N2, fun fuel hf hnb => ?_⟩
+  obtain ⟨a1, a2, _⟩ := h1 fuel (by omega)
+  obtain ⟨b1, b2, _⟩ := h2 fuel (by omega)
+  have hcr : (run { c with budget := big } (progOf cp) fuel).2.created
+      = (Spec.run (specOf { c with budget := big }) cfg.cast n).2.created := congrArg Spec.SState.created b2
+  have hcr1 : (run c (progOf cp) fuel).2.created = (Spec.run (specOf c) cfg.cast n).2.created :=
+    congrArg Spec.SState.created a2
+  have hsc : Spec.withBudget (specOf { c with budget := big }) c.budget = specOf c := rfl
+  have h := Spec.spec_needs (specOf { c with budget := big }) hr cfg.cast n c.budget hb (by rw [← b1]; exact hnb)
+  rw [hsc, ← hcr] at h
+  refine ⟨fun hlt => ?_, fun hge => ?_⟩
+  · have e := h.1 hlt
+    exact ⟨by rw [a1, b1, e], by rw [hcr1, hcr, e]⟩
+  · rw [a1]; exact h.2 hge
+
+/-- the hypotheses of `compiled_needs` are satisfiable on a tree with a run-time range inside a loop builtin
+    (`all(1..3, {# > 0 and I == 1})`, C01's worked example), in every world and environment and for every
+    pair of budgets -/
+example (c : Cfg) (big : Int) (hr : c.defects.rangeSizeSigned = false) (hb : 0 < c.budget) :
+    ∃ N, ∀ fuel, N ≤ fuel →
+      (run { c with budget := big } (progOf C01.exCompiled) fuel).1 ≠ .error .budget →
+      (((run { c with budget := big } (progOf C01.exCompiled) fuel).2.created : Int) < c.budget →
+          (run c (progOf C01.exCompiled) fuel).1 = (run { c with budget := big } (progOf C01.exCompiled) fuel).1 ∧
+          (run c (progOf C01.exCompiled) fuel).2.created = (run { c with budget := big } (progOf C01.exCompiled) fuel).2.created) ∧
+      (c.budget ≤ ((run { c with budget := big } (progOf C01.exCompiled) fuel).2.created : Int) →
+          (run c (progOf C01.exCompiled) fuel).1 = .error .budget) :=
+  compiled_needs {} C01.exTree C01.exCompiled c big C01.ex_compiles (by decide) C01.ex_fits (fun h => by cases h) (C01.ex_good c)
+    (C01.ex_good _) hr hb
 
 /-! ### the defect as it was (`rangeSizeSigned := true`): a descending range lowers the counter -/
 
